@@ -14,7 +14,15 @@ FAMS = {"power": ([[[None, "watt", 1]], [["milli", "watt", 1]], [["kilo", "watt"
         "energy": ([[[None, "joule", 1]], [["kilo", "watt", 1], [None, "hour", 1]]], 1),
         "frequency": ([[[None, "hertz", 1]], [["kilo", "hertz", 1]]], 1),
         "speed": ([[[None, "meter", 1], [None, "second", -1]], [["kilo", "meter", 1], [None, "hour", -1]]], 2),
-        "time": ([[[None, "second", 1]], [[None, "minute", 1]]], 1)}
+        "time": ([[[None, "second", 1]], [[None, "minute", 1]]], 1),
+        # the remaining root-power (field) quantities of the library's convention, and look-alikes that are power quantities
+        "field-strength": ([[[None, "volt", 1], [None, "meter", -1]], [["kilo", "volt", 1], [None, "meter", -1]]], 2),
+        "charge-per-length": ([[[None, "coulomb", 1], [None, "meter", -1]], [["micro", "coulomb", 1], [None, "meter", -1]]], 2),
+        "charge-per-area": ([[[None, "coulomb", 1], [None, "meter", -2]], [["milli", "coulomb", 1], [None, "meter", -2]]], 2),
+        "charge-per-volume": ([[[None, "coulomb", 1], [None, "meter", -3]], [["micro", "coulomb", 1], [None, "meter", -3]]], 2),
+        "charge": ([[[None, "coulomb", 1]], [["milli", "coulomb", 1]]], 1),
+        "force": ([[[None, "newton", 1]], [["kilo", "newton", 1]]], 1),
+        "area": ([[[None, "meter", 2]], [[None, "meter", 1], [None, "meter", 1]]], 1)}
 LOGS = [("bel", None, Decimal(10), Decimal(1)), ("decibel", None, Decimal(10), Decimal(1) / 10), ("neper", None, None, Decimal(1)), ("octave", None, Decimal(2), Decimal(1)),
         ("bel", "milli", Decimal(10), Decimal(1) / 1000), ("octave", "centi", Decimal(2), Decimal(1) / 100), ("neper", "deci", None, Decimal(1) / 10),
         (12, None, Decimal(12), Decimal(1)), (3, "deci", Decimal(3), Decimal(1) / 10), ("bel", "kilo", Decimal(10), Decimal(1000))]
@@ -177,6 +185,6 @@ def main():
              extra=dict(stats, traces_validated_against_impl=len(cases)),
              assumptions=["theorems are over the reals: standard-library real-number axioms ClassicalDedekindReals.sig_not_dec, sig_forall_dec, "
                           "FunctionalExtensionality.functional_extensionality_dep, Classical_Prop.classic", "floating-point rounding of math.log / ** is measured at 1e-9, not proved",
-                          "which dimensions are root-power quantities is the library's ROOT_POWER_DIMENSIONS list; the check uses voltage, pressure, current, speed (2) and power, energy, frequency, time (1)"])
+                          "which dimensions are root-power quantities is the library's ROOT_POWER_DIMENSIONS list; the check pins its own list: voltage, pressure, current, speed, field strength, charge per length / area / volume (2) and power, energy, frequency, time, charge, force, area (1)"])
 
 guarded(main, "C18")
